@@ -1,5 +1,9 @@
 """C19 — parsers sharing one configuration are independent (call-level interleaving; write footprint)."""
+import base64
+import json
+import os
 import re
+import subprocess
 
 import conncheck
 import connlib as cl
@@ -7,8 +11,108 @@ import connprops as P
 import lib
 
 PROPS_MODULE = "C19"
-TRUSTED = ["nm-based writable-symbol list and regex-based cfg-store list (extract/extract.py)", "solo-vs-interleaved comparison (search only)"]
-ASSUMPTIONS = ["real thread schedules and the hardware memory model are not exhibited by the model (partial)", "allocation succeeds"]
+TRUSTED = ["nm-based writable-symbol list and regex-based cfg-store list (extract/extract.py)", "solo-vs-interleaved comparison (search only)",
+           "ThreadSanitizer build of the library + harness/thr/thr.c: real threads on one shared configuration (search only)"]
+ASSUMPTIONS = ["real thread schedules and the hardware memory model are not exhibited by the model (partial): the threaded runs under the "
+               "race detector sample schedules, they do not enumerate them", "allocation succeeds"]
+
+THR_CFGS = ("p=IDS,respdecomp=0,urlenc=1", "p=IIS_6_0,respdecomp=0,urlenc=1,mpart=1", "p=APACHE_2,respdecomp=1,cookies=1", "respdecomp=1,reqdecomp=1,urlenc=1",
+            "p=IIS_5_1,respdecomp=0,urlenc=1,u8best=1")
+
+
+def thr_groups(ctx):
+    """groups of 2..8 streams for the threaded search: credentials (base64), wide / %u path bytes (best-fit map, UTF-8 decoder), cookies,
+    urlencoded and multipart bodies, compressed responses, plus generated and mutated exchanges"""
+    import gzip
+    import c12
+    import traffic
+    rng = ctx.rng
+    toks = c12.escape_tokens()
+    wide = [t for t in toks if len(t) >= 2 and t[0] >= 0xc2] + [b"%u4e2d", b"%u0100", b"%uff21", b"\xe4\xb8\xad", b"\xd1\x81", b"\xc4\x80"]
+    groups = []
+    for gi in range(6 if ctx.tier == "quick" else 48):
+        K = rng.randint(2, 8)
+        cfg = THR_CFGS[gi % len(THR_CFGS)]
+        streams = []
+        for k in range(K):
+            kind = rng.random()
+            if kind < 0.6:
+                path = b"/" + b"".join(rng.choice(wide) * rng.randint(1, 2) if rng.random() < 0.6 else rng.choice(toks) for _ in range(rng.randint(1, 5)))
+                path = path.replace(b" ", b"%20").replace(b"\r", b"%0d").replace(b"\n", b"%0a").replace(b"\x00", b"%00").replace(b"\t", b"%09")
+                cred = base64.b64encode(bytes(rng.choice(b"abcXYZ:019") for _ in range(rng.randint(3, 40))))
+                auth = (b"Authorization: Basic " + cred) if rng.random() < 0.7 else (b'Authorization: Digest username="u%d", realm="r"' % k)
+                body = b"x=%%u0041&y%d=%%4%d&z=" % (k, k % 10) + rng.choice(toks).replace(b" ", b"+").replace(b"\r", b"").replace(b"\n", b"")
+                R = (b"POST " + path + b"?q=" + rng.choice(toks).replace(b" ", b"+").replace(b"\r", b"").replace(b"\n", b"") +
+                     b" HTTP/1.1\r\nHost: h%d.example:80%d\r\n" % (k, k) + auth + b"\r\nCookie: a=%d; b=c\r\nContent-Type: application/x-www-form-urlencoded\r\n"
+                     b"Content-Length: %d\r\n\r\n" % (k, len(body)) + body)
+                pl = b"payload %d " % k * rng.randint(1, 60)
+                if rng.random() < 0.5:
+                    z = gzip.compress(pl)
+                    S = b"HTTP/1.1 200 OK\r\nContent-Encoding: gzip\r\nContent-Length: %d\r\n\r\n" % len(z) + z
+                else:
+                    S = b"HTTP/1.1 200 OK\r\nTransfer-Encoding: chunked\r\n\r\n%x\r\n" % len(pl) + pl + b"\r\n0\r\n\r\n"
+            else:
+                reqs, ress, rq, rs = traffic.gen_exchange(rng, opts=P.OPTS)
+                R, S = b"".join(rq), b"".join(rs)
+                if rng.random() < 0.4:
+                    R = traffic.mutate(R, rng)
+                if rng.random() < 0.4:
+                    S = traffic.mutate(S, rng)
+            streams.append((R, S))
+        groups.append((cfg, streams))
+    return groups
+
+
+def run_thr(thr, cfg, streams, iters, seed, workdir):
+    f = os.path.join(workdir, "thr_streams_%d.txt" % os.getpid())
+    with open(f, "w") as fh:
+        fh.write("".join("%s %s\n" % (r.hex() or "-", s.hex() or "-") for r, s in streams))
+    try:
+        p = subprocess.run([thr, cfg, f, str(iters), str(seed)], capture_output=True, text=True, timeout=600,
+                           env=dict(os.environ, TSAN_OPTIONS="halt_on_error=0 exitcode=66 report_signal_unsafe=0"))
+    finally:
+        os.unlink(f)
+    return p
+
+
+def thr_verdict(p):
+    """(kind, detail) or None. A parse that differs from the solo parse of the same stream, or a data race reported by the sanitizer."""
+    if "FATAL: ThreadSanitizer" in p.stderr:
+        return ("tsan-unavailable", p.stderr[:400])
+    lines = p.stdout.splitlines()
+    if not lines or lines[-1] != "done":
+        return ("thread-harness-failed", "rc=%d stdout tail %r stderr tail %r" % (p.returncode, p.stdout[-300:], p.stderr[-1200:]))
+    diffs = [l for l in lines if l.startswith("stream ") and " differ 0" not in l]
+    races = p.stderr.count("WARNING: ThreadSanitizer: data race")
+    if diffs or races:
+        first = re.findall(r"(?:#\d+ \S+ (/repo/\S+))", p.stderr)
+        return ("thread-interference", "%d stream(s) parsed differently than alone; %d data race report(s)%s; %s" % (
+            len(diffs), races, (" (first frames in the library: " + ", ".join(first[:4]) + ")") if first else "", (diffs[0][:600] if diffs else "")))
+    return None
+
+
+def thread_search(ctx):
+    thr = lib.build_thr()["thr"]
+    iters = 120 if ctx.tier == "quick" else 400
+    groups = thr_groups(ctx)
+    parses, unavailable = 0, None
+    for gi, (cfg, streams) in enumerate(groups):
+        p = run_thr(thr, cfg, streams, iters, ctx.seed * 1000 + gi, lib.BUILD)
+        v = thr_verdict(p)
+        if v and v[0] == "tsan-unavailable":
+            unavailable = v[1]
+            break
+        if v:
+            ctx.violation("oracle-" + v[0], {"what": v[1], "thr": {"cfg": cfg, "iterations": iters, "seed": ctx.seed * 1000 + gi,
+                                                                     "streams": [[r.hex(), s.hex()] for r, s in streams]},
+                                             "sanitizer_report": p.stderr[:6000]}, found_input=(v[0] == "thread-interference"), sig=v[0])
+            break
+        parses += iters * len(streams)
+    ctx.cov["threaded"] = {"groups": len(groups), "streams_per_group": [len(s) for _, s in groups], "iterations_per_stream": iters,
+                           "threaded_parses": parses, "configurations": sorted({c for c, _ in groups}),
+                           "detector": "clang -fsanitize=thread; every threaded parse compared with the solo parse of the same stream",
+                           "unavailable": unavailable}
+    return parses
 
 
 def run(ctx, model_ok=True, proofs_broken=False):
@@ -37,7 +141,23 @@ def run(ctx, model_ok=True, proofs_broken=False):
         return found
 
     conncheck.run_conn_prop(ctx, "C19", scripts, oracle, "conn/interleave", P.RULES["C19"], model_ok)
+    n = thread_search(ctx)
+    ctx.cov["evaluations"] = ctx.cov.get("evaluations", 0) + n
 
 
 def replay(ctx, path):
+    p = json.load(open(path))
+    if "thr" in p:
+        t = p["thr"]
+        thr = lib.build_thr()["thr"]
+        r = run_thr(thr, t["cfg"], [(bytes.fromhex(a), bytes.fromhex(b)) for a, b in t["streams"]], t["iterations"], t["seed"], lib.BUILD)
+        v = thr_verdict(r)
+        print(r.stdout[-1500:])
+        print(r.stderr[:3000])
+        if v:
+            print("%s: %s" % v)
+            print("VIOLATION property=C19 replay=%s" % path)
+            return 1
+        print("no difference and no race in this run (schedules are sampled: a clean replay does not show the race is gone)")
+        return 0
     return conncheck.generic_replay(ctx, path, lambda sc, outs: [], None, "C19")
